@@ -30,6 +30,7 @@ func run(c *mon.Ctx) {
 	c.Assume("a request that consists only of the PAT/PMT PIDs is exercised for no-panic and input-untouched only (the statement is vacuous both ways); stream PIDs never equal the PAT or PMT PID")
 	c.Floor("contract.all_present", 2000)
 	c.Floor("contract.some_missing", 1000)
+	c.Floor("contract.many_missing_pids", 300)
 	c.Floor("contract.none_present", 500)
 	c.Floor("contract.empty_request", 200)
 	c.Floor("concurrent.calls", 5000)
@@ -144,7 +145,12 @@ func run(c *mon.Ctx) {
 			dup = true
 		}
 		var missing []int
-		for k := r.Intn(3); k > 0 && r.Chance(2); k-- {
+		nMissing := r.Intn(3)
+		if r.Chance(12) {
+			nMissing = r.PickInt([]int{15, 16, 17, 18, 33, 40, 64, 100}) // a long request against a short table: every one is named
+			c.Count("contract.many_missing_pids")
+		}
+		for k := nMissing; k > 0 && (nMissing > 2 || r.Chance(2)); k-- {
 			m := 8190 - r.Intn(5)
 			if r.Bool() {
 				// any 13-bit value that is not a stream of the table is a missing PID: low table PIDs, the null PID, ...
